@@ -40,7 +40,7 @@ SAN = ["-fsanitize=address,undefined", "-fno-sanitize-recover=all", "-fno-omit-f
 FLAVOURS = {
     "asan": [STD, "-O1", "-g"] + SAN,
     "asan-ndebug": [STD, "-O1", "-g"] + SAN + ["-DNDEBUG"],
-    "plain": [STD, "-O1", "-g"],
+    "plain": [STD, "-O1", "-g", "-gdwarf-4"],   # valgrind 3.19 cannot read clang's DWARF 5
 }
 ASAN_OPTIONS = ("halt_on_error=1:abort_on_error=1:detect_leaks=1:max_allocation_size_mb=512:"
                 "handle_abort=1:allocator_may_return_null=0")
@@ -49,6 +49,7 @@ VALGRIND_EXIT = 97
 VALGRIND = ["valgrind", "-q", "--error-exitcode=%d" % VALGRIND_EXIT, "--exit-on-first-error=yes",
             "--leak-check=no", "--track-origins=no", "--num-callers=30"]
 TIMEOUT = 10.0          # per-input watchdog
+RSS_LIMIT_MB = int(os.environ.get("VERIF_CXX_RSS_MB", "6144"))   # resident-set watchdog (kind "oom")
 SER_CHUNK = 48          # build-side entries per translation unit
 PARSE_CHUNK = 24        # parse-side types per translation unit
 JOBS = max(2, min(12, (os.cpu_count() or 4)))
@@ -144,6 +145,133 @@ def unsupported_declarations(file):
     return bad
 
 
+CXX_KEYWORDS = set("""alignas alignof and and_eq asm auto bitand bitor bool break case catch char
+char8_t char16_t char32_t class compl concept const consteval constexpr constinit const_cast continue
+co_await co_return co_yield decltype default delete do double dynamic_cast else enum explicit export
+extern false float for friend goto if inline int long mutable namespace new noexcept not not_eq nullptr
+operator or or_eq private protected public register reinterpret_cast requires return short signed
+sizeof static static_assert static_cast struct switch template this thread_local throw true try typedef
+typeid typename union unsigned using virtual void volatile wchar_t while xor xor_eq
+int8_t int16_t int32_t int64_t uint8_t uint16_t uint32_t uint64_t size_t""".split())
+
+
+def uncompilable_declarations(file):
+    """{declaration id: reason}: declarations for which the C++ backend (as read from
+    backends/cxx.rs and confirmed by probing) panics or emits code that does not compile,
+    although the analyzer accepts them. These are backend *defects / gaps*, unlike
+    unsupported_declarations(); a caller that wants a compilable header for the rest of a
+    description excludes both sets (each reason is reportable once as a finding).
+    The prediction is conservative in neither direction: build() failing with CxxError is
+    the ground truth."""
+    from ..refmodel import Model
+    f = A.inline_groups(file)
+    m = Model(file)
+    dm = m.dm
+    bad = {}
+
+    def first_tag_not_value(enum_id):
+        tags = dm[enum_id]["tags"]
+        return bool(tags) and A.tag_kind(tags[0]) != "value"
+
+    def closed(enum_id):
+        return all(A.tag_kind(t) != "other" for t in dm[enum_id]["tags"])
+
+    for d in f["declarations"]:
+        k = d["kind"]
+        if k not in ("packet_declaration", "struct_declaration"):
+            continue
+        why = []
+        fields = d["fields"]
+        if k == "packet_declaration" and not fields:
+            why.append("packet without fields: view Parse() uses an undeclared `span`")
+        if k == "struct_declaration" and A.get_payload(d) is not None:
+            why.append("struct with payload/body: slice assigned to std::vector<uint8_t>")
+        if k == "struct_declaration" and d.get("parent_id") is not None:
+            why.append("struct inheritance: parent fields and constraints are ignored")
+        flags = {fl["cond"]["id"] for fl in fields if fl.get("cond") is not None}
+        n_closed = 0
+        ids = set()
+        bits = 0
+        for idx, fl in enumerate(fields):
+            fk = fl["kind"]
+            fid = A.field_id(fl)
+            if fid is not None:
+                ids.add(fid)
+                if fid in CXX_KEYWORDS:
+                    why.append("field `%s` is a C++ keyword / reserved type name" % fid)
+                if fid in flags and fid in ("span", "parent", "output", "raw_value", "n"):
+                    why.append("flag `%s` collides with a local of the generated parser" % fid)
+                if k == "packet_declaration" and fid in ("valid", "bytes"):
+                    why.append("field `%s` collides with view member %s_" % (fid, fid))
+            if fk == "typedef_field" and fl.get("cond") is None and fl["type_id"] in dm and \
+                    dm[fl["type_id"]]["kind"] == "enum_declaration":
+                if closed(fl["type_id"]):
+                    n_closed += 1
+                if first_tag_not_value(fl["type_id"]):
+                    why.append("field `%s`: first tag of enum %s is a range / default tag "
+                               "(member initializer names an undeclared enumerator)" % (fid, fl["type_id"]))
+            # bit-field chunks wider than 64 bits
+            try:
+                if m.is_bitfield(fl):
+                    bits += m.bit_width(fl)
+                    if bits % 8 == 0:
+                        if bits > 64:
+                            why.append("bit-field chunk of %d bits (get_cxx_scalar_type panics)" % bits)
+                        bits = 0
+                else:
+                    bits = 0
+            except Exception:
+                bits = 0
+            # unknown-size field followed by non-static fields
+            unknown = False
+            if fk in ("payload_field", "body_field"):
+                unknown = m.payload_size_field(d) is None
+            elif fk == "typedef_field" and fl.get("cond") is None and fl["type_id"] in dm and \
+                    dm[fl["type_id"]]["kind"] == "struct_declaration":
+                try:
+                    unknown = m.class_field(d, idx) == "unknown"
+                except Exception:
+                    unknown = False
+            if unknown:
+                try:
+                    if m.trailing_static_bytes(d, idx) is None:
+                        why.append("unknown-size field followed by fields of non-constant size "
+                                   "(get_trailing_size panics)")
+                except Exception:
+                    pass
+        if n_closed >= 2:
+            why.append("%d closed-enum fields in one declaration: `auto raw_value` redefined" % n_closed)
+        has_payload = any(A.get_payload(x) is not None for x in m.chain(d)) if d["id"] in dm else False
+        if "payload" in ids and has_payload:
+            why.append("field `payload` collides with the payload member")
+        for fl in fields:
+            if fl["kind"] in ("size_field", "count_field", "elementsize_field"):
+                suffix = {"size_field": "_size", "count_field": "_count", "elementsize_field": "_element_size"}[fl["kind"]]
+                base = "payload" if fl["field_id"] in ("_payload_", "_body_") else fl["field_id"]
+                if base + suffix in ids:
+                    why.append("field `%s` collides with the generated member %s_" % (base + suffix, base + suffix))
+        if why:
+            bad[d["id"]] = "; ".join(why)
+    # propagate through parents and struct-typed fields
+    changed = True
+    while changed:
+        changed = False
+        for d in f["declarations"]:
+            if d.get("id") in bad or "fields" not in d:
+                continue
+            why = None
+            if d.get("parent_id") in bad:
+                why = "parent %s: %s" % (d["parent_id"], bad[d["parent_id"]])
+            for fl in d["fields"]:
+                t = fl.get("type_id") if fl["kind"] in ("typedef_field", "array_field") else None
+                if why is None and t in bad:
+                    why = "uses %s: %s" % (t, bad[t])
+            if why:
+                bad[d["id"]] = why[:400]
+                changed = True
+    return bad
+
+
 # ------------------------------------------------------------------------------ crash reports
 _FRAME = re.compile(r"^\s*#(\d+) 0x[0-9a-f]+ (?:in )?(.*?) (/[^\s:]+|[\w./+-]+):(\d+)(?::\d+)?\s*$")
 _VG_FRAME = re.compile(r"^==\d+==\s+(?:at|by) 0x[0-9A-Fa-f]+: (.*) \(([^():]+):(\d+)\)\s*$")
@@ -216,6 +344,14 @@ def classify(report, rc, timed_out, header_name, valgrind=False):
     if mu:
         out["ubsan"] = mu.group(4)
     return out
+
+
+def _rss_mb(pid):
+    try:
+        with open("/proc/%d/statm" % pid) as f:
+            return int(f.read().split()[1]) * (resource.getpagesize() >> 10) >> 10
+    except (OSError, ValueError, IndexError):
+        return 0
 
 
 def _limits(stack_mb=8):
@@ -669,7 +805,7 @@ class CxxHarness:
                     errs.append(str(x))
             if errs:
                 raise CxxError("\n".join(errs)[:20000])
-        link = [CXX] + [x for x in FLAVOURS[flavour] if x.startswith("-fsanitize") or x == "-g"] + \
+        link = [CXX] + [x for x in FLAVOURS[flavour] if x.startswith("-fsanitize") or x.startswith("-g")] + \
                ["-fuse-ld=lld"] + objs + ["-o", binp + ".tmp%d" % os.getpid()]
         p = subprocess.run(link, stdout=subprocess.PIPE, stderr=subprocess.STDOUT, timeout=1800)
         if p.returncode != 0:
@@ -719,7 +855,7 @@ class CxxHarness:
 
     def _stream(self, argv, stdin_path, env, timeout, startup):
         """Run one driver process. -> (results {k: line}, open_k, state, rc, stderr text) with
-        state in done / died / timeout."""
+        state in done / died / timeout / oom."""
         errf = tempfile.TemporaryFile(dir=self.dir)
         inf = open(stdin_path, "rb") if stdin_path else subprocess.DEVNULL
         try:
@@ -743,8 +879,11 @@ class CxxHarness:
             if left <= 0:
                 state = "timeout"
                 break
-            r, _, _ = select.select([fd], [], [], min(left, 1.0))
+            r, _, _ = select.select([fd], [], [], min(left, 0.25))
             if not r:
+                if _rss_mb(p.pid) > RSS_LIMIT_MB:
+                    state = "oom"
+                    break
                 continue
             chunk = os.read(fd, 1 << 16)
             if not chunk:
@@ -763,7 +902,7 @@ class CxxHarness:
                     results[open_k] = line
                     open_k = None
                     t_mark = time.time()
-        if state == "timeout":
+        if state in ("timeout", "oom"):
             try:
                 p.kill()
             except Exception:
@@ -838,6 +977,8 @@ class CxxHarness:
                 start = last + 1
                 continue
             crash = classify(err, rc, state == "timeout", self.header_name, valgrind=valgrind)
+            if state == "oom":
+                crash["kind"] = "oom"
             if open_k < n:
                 out[open_k] = {"crash": crash}
             start = open_k + 1
